@@ -144,12 +144,10 @@ def electrostatic_potential(
 
     # silence warning for dividing by zero (the error state is restored on every path)
     with np.errstate(divide="ignore"):
-        external_potential = (
-            nuclear_charges[None, :]
-            / np.sum((points[:, :, None] - nuclear_coords.T[None, :, :]) ** 2, axis=1) ** 0.5
-        )
-        # zero out potentials of elements that are too close to the nucleus
-        external_potential[external_potential > 1.0 / np.array(threshold_dist)] = 0
+        dist = np.sum((points[:, :, None] - nuclear_coords.T[None, :, :]) ** 2, axis=1) ** 0.5
+        external_potential = nuclear_charges[None, :] / dist
+        # zero out potentials of nuclei that are closer to the point than the threshold
+        external_potential[dist < threshold_dist] = 0
     # sum over potentials for each dimension
     external_potential = -np.sum(external_potential, axis=1)
 
